@@ -191,6 +191,26 @@ def search(ctx):
                     if block and sat(cnf + units + [block]) is not None:
                         ctx.violation('tseytin.extension_not_unique', 'a second satisfying extension differs on an encoded gate',
                                       input={'c': j, 'outs': sel, 'assignment': list(bits)})
+        # one Cnf object solved, extended by the unit clauses of an input assignment, solved again
+        try:
+            from cirbo.sat.cnf import Cnf
+            from cirbo.sat import is_satisfiable
+            cnf_obj = Cnf.from_circuit(circ_from_json(j))
+            is_satisfiable(cnf_obj)
+            bits, den = dens[rng.randrange(len(dens))]
+            for idx, b in enumerate(bits):
+                cnf_obj.add_clause([idx + 1] if b == 'T' else [-(idx + 1)])
+            res2 = is_satisfiable(cnf_obj)
+            want2 = all(den[o] == 'T' for o in outs)
+            if res2.answer != want2:
+                ctx.violation('cnf_object.second_solve', f'a Cnf object solved again after adding the units of an input assignment: answer {res2.answer}, '
+                              f'all outputs True under it = {want2}', input={'c': j, 'assignment': list(bits)})
+            elif res2.answer and any((idx + 1 in set(res2.model)) != (b == 'T') for idx, b in enumerate(bits) if idx + 1 <= len(res2.model)):
+                ctx.violation('cnf_object.second_solve', 'the model of the second solve contradicts the added unit clauses', input={'c': j, 'assignment': list(bits)})
+            else:
+                ctx.count('cnf_object:second_solve_ok')
+        except Exception as e:  # noqa: BLE001
+            ctx.violation('is_circuit_satisfiable.raises', f'Cnf object reuse raised {err_name(e)}', input={'c': j})
         # the satisfiability query itself
         try:
             from cirbo.sat import is_circuit_satisfiable
